@@ -132,7 +132,14 @@ Definition sh_push (sh : N -> N) (c : config) (t : tx) (h : N) (s : lm tx) : lm 
   else if c_shmax c <=? lm_size s then s
   else lm_push k t s.
 
-Definition sh_remove (sh : N -> N) (h : N) (s : lm tx) : lm tx := lm_remove (sh h) s.
+(** Remove(txHash): the entry under the short hash is deleted only when the
+    stored transaction is the one being removed (its hash equals txHash); an
+    entry owned by another pooled transaction with the same short hash stays *)
+Definition sh_remove (sh : N -> N) (h : N) (s : lm tx) : lm tx :=
+  match lm_get (sh h) s with
+  | Some t => if N.eqb (t_h t) h then lm_remove (sh h) s else s
+  | None => s
+  end.
 
 (** * txCache.Push / Remove / RemoveTxs *)
 Definition cache_push (sh : N -> N) (c : config) (now : Z) (t : tx) (st : state) : state * N :=
